@@ -651,7 +651,7 @@ func shrinkCache(scAny any) []any {
 func init() {
 	Register(&Prop{ID: "C21", Level: "exploration", Race: true,
 		Rule: "one case = a sequence of 8-58 Put/PutNegative/Get/Invalidate/InvalidateNegativeInDir/Resize/UpdateTTL/Clear/ConfigureNegativeCaching calls and fake-clock advances (never exactly on an expiry instant) on AttrCache or DirCache with capacity 1-8 and TTL 1 ns..1 h over a 3-level key alphabet (75%), or 2-3 concurrent clients with <= 12 operations under the seeded scheduler (25%, also built with -race); oracle sequential: operation-by-operation equality with a bounded TTL-LRU reference (hit/miss, negative flag, value of the most recent Put, copy isolation by mutating stored and returned values), size <= capacity after every call, negative entries only while enabled and removed exactly for direct children; oracle concurrent: porcupine linearizability against the same reference (timeouts counted, never reported); non-trivial = >=3 sequential operations or >=4 concurrent; distinct by event digest",
-		Gen: genC21, New: func() any { return &CacheScn{} }, Run: runCache, Shrink: shrinkCache,
+		Gen:  genC21, New: func() any { return &CacheScn{} }, Run: runCache, Shrink: shrinkCache,
 		Real:    []string{"AttrCache (all exported methods)", "DirCache (all exported methods)"},
 		Stubbed: []string{"clock (synctest fake clock)", "sync.RWMutex (simrt equivalents)", "goroutine scheduling (simrt driver)"}})
 }
